@@ -578,6 +578,24 @@ class Verifier(Interp):
         self.st.pc.append(size >= 0)
         return MapV(old.kt, old.vt, dom, val, size)
 
+    def coerce(self, v, ty):
+        if isinstance(v, Special) and v.tag == "dict_lit" and ty.kind in ("map", "bimap"):
+            kt, vt = ty.args
+            ks, vs = sort_of(kt), sort_of(vt)
+            def build(pairs, kt, vt):
+                dom = z3.K(sort_of(kt), z3.BoolVal(False))
+                val = z3.K(sort_of(kt), self.term(self.default(vt), vt))
+                for a, b in pairs:
+                    dom = z3.Store(dom, self.term(a, kt), True)
+                    val = z3.Store(val, self.term(a, kt), self.term(b, vt))
+                return MapV(kt, vt, dom, val, zint(len(pairs)))
+            if ty.kind == "map":
+                return lib.alloc(self, ty, build(v.pairs, kt, vt), "cell.dict")
+            keys = [a for a, _ in v.pairs]
+            return lib.alloc(self, ty, BimapV(build(v.pairs, kt, vt), build([(b, a) for a, b in v.pairs], vt, kt)),
+                             "cell.bidict")
+        return super().coerce(v, ty)
+
     # maps are boxed in heap cells
     def fresh(self, ty, hint="v"):
         if ty.kind == "map":
@@ -605,6 +623,35 @@ class Verifier(Interp):
             return out
         finally:
             self._in_hint = False
+
+    def hint_lemma_instances(self, name):
+        con = self.cur_con
+        if con is None or not con.use_lemmas or getattr(self, "_in_hint", False):
+            return []
+        hs = [h for k, v in con.use_lemmas.items() if k in name for h in v]
+        if not hs:
+            return []
+        self._in_hint = True
+        try:
+            out = []
+            for h in hs:
+                node = self.parse(h)
+                try:
+                    args = self.spec_eval(lambda: [self.ev(a) for a in node.args], self.entry_env)
+                    out.append(self.lemma_instance(node.func.id, args))
+                except Unsupported:
+                    pass
+            return out
+        finally:
+            self._in_hint = False
+
+    def lemma_instance(self, name, args):
+        lem = self.reg.lemmas[name]
+        sc = self.lemma_schema(name)[0]
+        flat = []
+        for (pn, pty), a in zip(lem.params, args):
+            flat.extend(self.flatten_arg(pty, a))
+        return z3.substitute(sc.body, *list(zip(sc.vars, flat)))
 
     # ================================================================= loops
     def loop_contract(self, s):
@@ -916,12 +963,22 @@ class Verifier(Interp):
             for i, r in enumerate(lem.requires):
                 self.assume(self.formula(r), "req.%d" % i)
             extra = []
+            use_hyps = []
+            pending_ih = []
             for h in lem.proof:
                 h = h.strip()
                 if h.startswith("inst "):
                     extra.append(self.term(self.ev(self.parse(h[5:]))))
-                elif h.startswith("assume-instance "):
-                    raise Unsupported("proof hint")
+                elif h.startswith("use "):
+                    node = self.parse(h[4:])
+                    args = [self.ev(a) for a in node.args]
+                    ln = node.func.id
+                    if ln == name:
+                        pending_ih.append(args)
+                    else:
+                        if ln not in self.usable_lemmas:
+                            raise Unsupported("lemma %s used before it is proved" % ln)
+                        use_hyps.append(self.lemma_instance(ln, args))
                 elif h.startswith("case "):
                     pass
             if lem.induct:
@@ -934,6 +991,15 @@ class Verifier(Interp):
                         self.spec_envs.pop()
                     return z3.And(m1 >= 0, m1 < m0)
                 self.ih_schema = self.lemma_schema(name, prefix="IH", extra_guard=guard)
+                for args in pending_ih:
+                    sc = self.ih_schema[0]
+                    flat = []
+                    for (pn, pty), a in zip(lem.params, args):
+                        flat.extend(self.flatten_arg(pty, a))
+                    use_hyps.append(z3.substitute(sc.body, *list(zip(sc.vars, flat))))
+                if lem.triggers == []:
+                    self.ih_schema = None   # explicit IH instances only
+            self.st.pc.extend(use_hyps)
             cases = [h[5:] for h in lem.proof if h.strip().startswith("case ")]
             try:
                 for i, e in enumerate(lem.ensures):
